@@ -17,7 +17,8 @@ ReqSet(body) == body.runtime_reqs                                    \* requirem
 WithReqs(sig, S) == [sig EXCEPT !.body.runtime_reqs = @ \cup S]
 NormSig(sig) == WithReqs(sig, {})
 
-Init == ext = [name |-> "verif.ext", version |-> "1.2.3", reqs |-> {"logic", "prelude"}, types |-> <<>>, ops |-> <<>>, values |-> <<>>]
+Versions == {"1.2.3", "2.0.0-rc.1", "1.0.0+build.17"}                \* semantic versions incl. a pre-release tag and build metadata
+Init == \E v \in Versions : ext = [name |-> "verif.ext", version |-> v, reqs |-> {"logic", "prelude"}, types |-> <<>>, ops |-> <<>>, values |-> <<>>]
 
 AddTypeDef(d) == ext' = [ext EXCEPT !.types = (d.name :> d) @@ [n \in DOMAIN @ \ {d.name} |-> @[n]]]
 (* add_op_def: the owning extension is added to the signature's requirements; the definition reports it as owner *)
